@@ -75,9 +75,21 @@ def get_scheme(scheme: str) -> scheme_func:
             stacklevel=3,
         )
 
-    # Replace the name of the function
-    func.__code__ = func.__code__.replace(co_name=scheme)
-    return func
+    # Return a copy of the function carrying the requested name. Renaming the module level
+    # function itself would also rename every function object handed out by earlier calls.
+    import types
+
+    renamed = types.FunctionType(
+        func.__code__.replace(co_name=scheme),
+        func.__globals__,
+        name=scheme,
+        argdefs=func.__defaults__,
+        closure=func.__closure__,
+    )
+    renamed.__kwdefaults__ = func.__kwdefaults__
+    renamed.__doc__ = func.__doc__
+    renamed.__annotations__ = dict(func.__annotations__)
+    return renamed
 
 
 def list_schemes() -> list[str]:
